@@ -27,7 +27,7 @@ json gen_family_text(Rng &r, int tier)
 	tg.max_items = tier ? 8 : 6;
 	tg.ctx_flags = flags;
 	tg.comments = 1;
-	tg.include_targets = {"/inc/a.conf"};
+	tg.include_targets = {"/inc/a.conf", "/inc/a.conf", "/inc", "/inc/nope.conf"}; // also a directory and a missing file
 	std::vector<Chunk> main_chunks = gen_text(r, schema["opts"], tg);
 	TextGen tg2 = tg;
 	tg2.include_targets = {"/inc/b.conf"};
@@ -122,7 +122,7 @@ json gen_family_api(Rng &r, int tier)
 			TextGen tg;
 			tg.max_items = 4;
 			tg.ctx_flags = flags;
-			tg.include_targets = {"/inc/a.conf"};
+			tg.include_targets = {"/inc/a.conf", "/inc/a.conf", "/inc"};
 			json p = step(0, "parse", c);
 			p["src"] = {{"kind", r.chance(1, 3) ? "fp" : "buf"}, {"chunks", chunks_to_json(gen_text(r, schema["opts"], tg))}};
 			if (k >= 80 && !p["src"]["chunks"].empty()) {
